@@ -13,7 +13,6 @@ import decimal
 import re
 import textwrap
 
-from functools import lru_cache as cache
 from decimal import Decimal
 
 import dateutil.parser
@@ -884,6 +883,7 @@ class Row:
     def __init__(self, entries, options):
         self.rowid = 0
         self.balance = inventory.Inventory()
+        self.balance_rowid = None
 
 
 class BeanTable(tables.Table):
@@ -1229,15 +1229,16 @@ def weight(context):
 
 
 @column(inventory.Inventory)
-@cache(maxsize=1)
 def balance(context):
     """The balance for the posting. These can be summed into inventories."""
-    # Caching protects against multiple balance updates per row when
-    # the columns appears more than once in the execurted query. The
-    # rowid in the row context guarantees that otherwise identical
-    # rows do not hit the cache and thus that the balance is correctly
-    # updated.
-    context.balance.add_position(context.posting)
+    # Protect against multiple balance updates per row when the column
+    # appears more than once in the executed query: the row context
+    # remembers the row for which the balance was last updated. This
+    # state is private to the table scan, thus other scans (subqueries,
+    # other threads) cannot interfere.
+    if context.balance_rowid != context.rowid:
+        context.balance.add_position(context.posting)
+        context.balance_rowid = context.rowid
     return copy.copy(context.balance)
 
 
